@@ -375,4 +375,30 @@ def posVmap (m : Mesh) (n : Nat) : List (String × String) :=
     | none => []
   else []
 
+/-- coordinates of the centre of cell `i`, as a function of the axis -/
+def coords (f : Fld) (i : List Nat) : Nat → Rat := fun a => f.mesh.centreAx a ((i.getD a 0 : Nat) : Int)
+
+/-- `x` with coordinate `ax` replaced by `v` -/
+def upd (x : Nat → Rat) (ax : Nat) (v : Rat) : Nat → Rat := fun a => if a = ax then v else x a
+
+/-- component `c` of `f` samples the function `P` of the coordinates at every cell centre -/
+def SampledFrom (f : Fld) (c : Nat) (P : (Nat → Rat) → Rat) : Prop :=
+  ∀ i, (f.data.get i).getD c 0 = P (coords f i)
+
+/-- `P` is a polynomial of degree ≤ 2 in coordinate `ax` (the other coordinates fixed), with
+first and second partial derivatives `P1`, `P2`: its Taylor expansion along `ax` stops at order 2 -/
+def QuadAlong (P : (Nat → Rat) → Rat) (ax : Nat) (P1 P2 : (Nat → Rat) → Rat) : Prop :=
+  ∀ x s, P (upd x ax (x ax + s)) = P x + P1 x * s + P2 x / 2 * s ^ 2
+
+/-- every cell of the mesh is valid -/
+def FullyValid (f : Fld) : Prop := ∀ i, f.valid.get i = true
+
+/-- general polynomial of total degree ≤ 2 in `n` coordinates -/
+def quadP (n : Nat) (c0 : Rat) (b : Nat → Rat) (q : Nat → Nat → Rat) (x : Nat → Rat) : Rat :=
+  c0 + sumTo n (fun a => b a * x a) + sumTo n (fun a => sumTo n fun a' => q a a' * x a * x a')
+
+/-- its textbook partial derivative along `ax` -/
+def quadP1 (n : Nat) (b : Nat → Rat) (q : Nat → Nat → Rat) (ax : Nat) (x : Nat → Rat) : Rat :=
+  b ax + sumTo n fun a => (q ax a + q a ax) * x a
+
 end DFV.C05
